@@ -1,4 +1,4 @@
-import SqlgrepModel.Lemmas.ReaderFollow
+import SqlgrepModel.Lemmas.ReaderUtf8
 /-
 C10 — follow mode delivers every completed line exactly once, in order.
 
@@ -84,6 +84,15 @@ theorem follow_exactly_once_in_order (file : List Nat) (head : Bool) (cap : Nat)
     let s := reached file head cap ops
     s.delivered <+: completeLines (s.file.drop s.start) := by
   exact inv_delivered_prefix _ (run_inv _ ops (init_inv file head cap))
+
+/-- **Character for character.** The item handed out is `String::from_utf8_lossy(line)`; when the content from
+the start offset is valid UTF-8, every delivered line is valid UTF-8 by itself — wherever the appends were
+cut — so that conversion is the identity and the `String` has exactly the bytes of the line. -/
+theorem follow_lines_valid_utf8 (file : List Nat) (head : Bool) (cap : Nat) (ops : List Op) :
+    let s := reached file head cap ops
+    validUtf8 (s.file.drop s.start) = true → ∀ l ∈ s.delivered, validUtf8 l = true := by
+  intro s hv
+  exact inv_delivered_valid s (run_inv _ ops (init_inv file head cap)) hv
 
 /-- delivery is append-only: further operations never retract, reorder or change what was delivered
 (together with the previous theorem: no duplicates — the i-th item is the i-th complete line, forever) -/
